@@ -68,6 +68,9 @@ def psd_inputs(np, rnd):
     out.append(np.zeros((3, 3)))                                # zero
     w = np.array([[1.0], [1.0], [0.0]])
     out.append((w @ w.T) * 2.5e-7 + (v @ v.T) * 1e-9)           # rank 2
+    out.append(np.array([[4, 1, 0], [1, 9, 2], [0, 2, 16]]))    # the same kind of matrix held in an INTEGER array
+    out.append(np.eye(3, dtype=int))
+    out.append(np.array([[4.0e-4, 0, 0], [0, 9.0e-4, 0], [0, 0, 1.6e-3]], dtype=np.float32).astype(np.float32))   # single precision
     return out
 
 
